@@ -15,6 +15,10 @@ Protocol (one case = one schema + one Chaperone):
   foldx <hex raw> <call strategies>      -> valid structId errPresent rawEcho strategy confidence [notes] [attempts] calls=[…]
   stats                                  -> total successful succ(s:e:l:r) attempts(s:e:l:r)
   resetstats
+  new / use <i>                          several Chaperones stay alive in one case; `use` addresses instance i
+  tune remove:<s>|reverse|append:<s>|clear   in-place edit of the addressed instance's public `strategies` list -> the list
+  heal <max_retries> <decay> <hex,hex,…> ChaperoneLoop.heal with a scripted generator -> outcome final tagged [attempts] folded: …
+  schema <spec> (again)                  another schema class of the same name on the same Chaperones
 """
 from __future__ import annotations
 
@@ -647,8 +651,19 @@ class C11(Prop):
         REC.reset_case()
         S = self.factory.get("a:int")
         spec = "a:int"
-        ch = m.Chaperone(silent=True)
-        ctor = "none"
+        chs = []                 # every Chaperone of this case stays alive
+        owns = []                # what each instance was told to use, from the protocol lines alone (for the oracle)
+        ch = None
+        ctor = "selr"
+
+        def current():
+            nonlocal ch, ctor
+            if ch is None:       # folds before any `new`: an implicit default instance
+                ch = m.Chaperone(silent=True)
+                chs.append(ch)
+                owns.append(list("selr"))
+                ctor = "selr"
+            return ch
 
         def emit(line, o, x=None):
             out_lines.append(line)
@@ -665,13 +680,50 @@ class C11(Prop):
             elif t[0] == "new" and len(t) == 2:
                 try:
                     ch = m.Chaperone(strategies=self.strategies_of(t[1]), silent=True)
-                    ctor = t[1]
+                    chs.append(ch)
+                    owns.append(list(t[1]) if t[1] not in ("none", "-") else list("selr"))
+                    ctor = "".join(owns[-1])
                     emit(line, "ok")
                 except Exception as e:      # an observation, judged like every other one
+                    emit(line, f"raise:{type(e).__name__}")
+            elif t[0] == "use" and len(t) == 2:
+                i = int(t[1]) if t[1].isdigit() else -1
+                if 0 <= i < len(chs):
+                    ch = chs[i]
+                    ctor = "".join(owns[i])
+                    emit(line, "ok")
+                else:
+                    emit(line, "no-such-instance")
+            elif t[0] == "tune" and len(t) == 2:
+                c = current()
+                own = owns[chs.index(c)]
+                op, _, arg = t[1].partition(":")
+                try:
+                    if op == "reverse":
+                        c.strategies.reverse()
+                        own.reverse()
+                    elif op == "clear":
+                        c.strategies.clear()
+                        own.clear()
+                    elif op == "append" and arg in self.strat:
+                        c.strategies.append(self.strat[arg])
+                        own.append(arg)
+                    elif op == "remove" and arg in self.strat:
+                        if arg in own:
+                            own.remove(arg)
+                        if self.strat[arg] in c.strategies:
+                            c.strategies.remove(self.strat[arg])
+                    else:
+                        emit(line, "bad-op")
+                        continue
+                    ctor = "".join(own)
+                    emit(line, "[" + ",".join(self.strat_letter.get(x, "?") for x in c.strategies) + "]")
+                except Exception as e:
                     emit(line, f"raise:{type(e).__name__}")
             elif t[0] in ("fold", "foldx") and len(t) == 3:
                 raw = unhexs(t[1])
                 strat = self.strategies_of(t[2])
+                ch = current()
                 before = self.safe_stats(ch)
                 REC.top = S
                 REC.calls = []
@@ -717,6 +769,7 @@ class C11(Prop):
                 emit(line, " ".join(head + [calls]), info)
             elif t[0] == "heal" and len(t) == 4:
                 outs = [unhexs(h) for h in t[3].split(",")]
+                ch = current()
                 n_calls = [0]
 
                 def scripted(prompt, error_context=None, _outs=outs, _n=n_calls):
@@ -743,7 +796,7 @@ class C11(Prop):
                 if REC.nondet:
                     calls += " nondeterministic-library"
                 info = {"op": "heal", "S": S, "result": r, "error": err, "outs": outs, "generator_calls": n_calls[0],
-                        "max_retries": int(t[1])}
+                        "max_retries": int(t[1]), "ctor": ctor}
                 if err is not None:
                     emit(line, f"raise:{type(err).__name__} {calls}", info)
                     continue
@@ -764,7 +817,7 @@ class C11(Prop):
                     emit(line, f"raise:{type(e).__name__} {calls}", info)
             elif t[0] == "stats":
                 try:
-                    s = ch.get_statistics()
+                    s = current().get_statistics()
                     emit(line, " ".join([str(s["total_folds"]), str(s["successful_folds"]),
                                          ":".join(str(s["strategy_success"][STRAT_LETTERS[k].lower()]) for k in "selr"),
                                          ":".join(str(s["strategy_attempts"][STRAT_LETTERS[k].lower()]) for k in "selr")]),
@@ -773,7 +826,7 @@ class C11(Prop):
                     emit(line, f"raise:{type(e).__name__}", {"op": "stats", "error": e})
             elif t[0] == "resetstats":
                 try:
-                    ch.reset_statistics()
+                    current().reset_statistics()
                     emit(line, "ok")
                 except Exception as e:
                     emit(line, f"raise:{type(e).__name__}", {"op": "resetstats", "error": e})
@@ -798,7 +851,7 @@ class C11(Prop):
             if x["error"] is not None:
                 out.append(Violation("folding_never_raises", "a result object", f"raise:{type(x['error']).__name__}", idx))
                 continue
-            eff = x["strat"] if x["strat"] not in ("none", "-") else (x["ctor"] if x["ctor"] not in ("none", "-") else "selr")
+            eff = x["strat"] if x["strat"] not in ("none", "-") else x["ctor"]   # the instance's own list, per protocol
             enhanced = x["op"] == "foldx"
             used = None
             if enhanced and r.strategy_used is not None:
@@ -853,7 +906,7 @@ class C11(Prop):
             if clean is not None and "s" in eff:
                 if not r.valid:
                     out.append(Violation("clean_json_accepted", "valid (strict is among the strategies)", "invalid", idx))
-                elif eff[0] == "s":
+                elif eff[:1] == "s":
                     if not same_structure(clean, r.structure):
                         out.append(Violation("clean_json_taken_verbatim", repr(clean)[:200], repr(r.structure)[:200], idx))
                     if enhanced and (r.strategy_used != FS.STRICT or r.confidence != 1.0):
@@ -1077,9 +1130,25 @@ class C11(Prop):
             fields = self.rand_fields(rng, big=rng.random() < 0.04)
             lines = ["schema " + self.spec_of(fields),
                      "new " + (self.rand_strats(rng) if rng.random() < 0.25 else "none")]
-            # a history on ONE Chaperone: several texts, changing strategy lists, repeats, resets in between
+            # a history on ONE Chaperone: several texts, changing strategy lists, repeats, resets in between;
+            # in a third of the cases several Chaperones are alive and one of them has its public `strategies`
+            # list edited in place
             prev = None
+            n_inst = 1
+            crowd = rng.random() < 0.33
             for _ in range(rng.choice([1, 1, 2, 2, 3, 4, 6])):
+                if crowd:
+                    y = rng.random()
+                    if y < 0.3 and n_inst < 4:
+                        lines.append("new " + (self.rand_strats(rng) if rng.random() < 0.25 else rng.choice(["none", "none", "-"])))
+                        n_inst += 1
+                    elif y < 0.55:
+                        lines.append(f"use {rng.randrange(n_inst)}")
+                    if rng.random() < 0.35:
+                        lines.append("tune " + rng.choice(["reverse", "clear", "remove:s", "remove:s", "remove:e", "remove:r",
+                                                           "append:s", "append:r", "append:l", "remove:l"]))
+                        if rng.random() < 0.6:
+                            lines.append(f"use {rng.randrange(n_inst)}")
                 if prev is not None and rng.random() < 0.15:
                     raw = prev
                 else:
@@ -1196,7 +1265,19 @@ class C11(Prop):
                                                "schema id:str,flag:bool", f"foldx {hexs(raw)} {st}", f"fold {hexs(raw)} {st}",
                                                "schema id:int,flag:str", f"fold {hexs(raw)} {st}", "stats"],
                                      "note": "two schema classes of the same name on one Chaperone, same text"})
-        return [{"name": "healing loop: decay x max_retries x number of misfolds", "cases": heal_cases},
+        crowd_cases = []
+        clean, prose2 = '{"a": 1, "b": "x"}', 'so {"a": "2"} ok'
+        for tunes in [["remove:s", "reverse"], ["reverse"], ["clear"], ["append:s"], ["remove:s"], ["remove:e", "remove:l"],
+                      ["clear", "append:r"], ["remove:r", "remove:s", "append:s"]]:
+            for first in ["none", "-", "selr"]:
+                L = [f"schema {spec}", f"new {first}", "new none", "use 0"] + [f"tune {t}" for t in tunes]
+                L += ["use 1", f"foldx {hexs(clean)} none", f"fold {hexs(clean)} none", f"foldx {hexs(prose2)} -",
+                      "new none", f"foldx {hexs(clean)} none", f"fold {hexs(prose2)} none", "stats",
+                      "use 0", f"foldx {hexs(clean)} none", f"fold {hexs(clean)} none", f"heal 1 1/10 {hexs(clean)}", "stats",
+                      "use 1", "stats"]
+                crowd_cases.append({"lines": L, "note": "several Chaperones alive; one instance's strategies list edited in place"})
+        return [{"name": "several Chaperone instances, in-place edits of one instance's public strategies list", "cases": crowd_cases},
+                {"name": "healing loop: decay x max_retries x number of misfolds", "cases": heal_cases},
                 {"name": "same-named schema classes alternating on one Chaperone", "cases": switch_cases},
                 {"name": "deep nesting, scalar and null documents, coercion table x single strategies", "cases": edge_cases},
                 {"name": "all 66 strategy lists (None, [], every ordered subset) x representative raw texts", "cases": cases},
